@@ -29,7 +29,7 @@ ASSUMPTIONS = ['ensemble variants: np.random concretised to a seeded stream, re-
 REQUIRED_CLASSES = ['keypath:nested-set', 'keypath:delete', 'keypath:too-deep', 'keypath:missing', 'yaml:tuple-edit', 'yaml:array-edit']
 EXPECTED_LABELS = ['default-config-reproduces-plain-call', 'stage-options-identical', 'keypath-equals-nested-indexing', 'untouched-entries-unchanged',
                    'yaml-text-roundtrip', 'yaml-file-roundtrip', 'export-does-not-modify-config', 'reloaded-callable-equivalent']
-BUDGET_S = {'quick': 150, 'thorough': 1200}
+BUDGET_S = {'quick': 150, 'thorough': 900}
 OPTS = {'quick': {'sample_every': 37, 'concolic': False}, 'thorough': {'sample_every': 101, 'concolic': False}}
 
 VARIANTS = ['sift', 'mask_sift', 'ensemble_sift', 'complete_ensemble_sift']
